@@ -295,31 +295,63 @@ Proof.
   apply (forallb_false_intro _ _ _ o Hin). rewrite Hm, Hk. destruct (o_class o); try reflexivity. contradiction.
 Qed.
 
+(* the spender of a coin whose credit row the store holds: kept whatever the node's chain is (repaired:
+   f_removable_debit) *)
+Lemma removable_false_in_db : forall st shs n tx0 op c,
+  f_removable_debit fx = true ->
+  t_cb tx0 = false -> In op (t_ins tx0) -> In c (credits (x_w st)) -> c_tx c = fst op -> c_vout c = snd op ->
+  memN (c_sh c) shs = false -> is_some (key_owner st (c_sh c)) = true ->
+  removable fx st shs n tx0 = false.
+Proof.
+  intros st shs n tx0 op c Hdb Hcb Hin Hc Ht Hv Hm Hk. unfold removable. apply andb_false_iff. left.
+  rewrite Hfx_rm, Hdb. cbn [andb]. apply negb_false_iff. unfold spends_other_db. rewrite Hcb. cbn [negb andb].
+  apply existsb_exists. exists op. split; [assumption|]. apply existsb_exists. exists c. split; [assumption|].
+  rewrite Ht, Hv, !N.eqb_refl, Hm, Hk. reflexivity.
+Qed.
+
 Lemma removable_false_in : forall st shs n tx0 op pt o,
   t_cb tx0 = false -> In op (t_ins tx0) -> node_tx n (fst op) = Some pt ->
   nth_error (t_outs pt) (N.to_nat (snd op)) = Some o ->
   o_class o <> CUnsupported -> memN (o_sh o) shs = false -> is_some (key_owner st (o_sh o)) = true ->
+  (exists c, In c (credits (x_w st)) /\ c_tx c = fst op /\ c_vout c = snd op /\ c_sh c = o_sh o) ->
   removable fx st shs n tx0 = false.
 Proof.
-  intros st shs n tx0 op pt o Hcb Hin Hnt Hnth Hc Hm Hk. unfold removable. apply andb_false_iff. left.
-  rewrite Hfx_rm. cbn [andb]. apply negb_false_iff. unfold spends_other. rewrite Hcb. cbn [negb andb].
+  intros st shs n tx0 op pt o Hcb Hin Hnt Hnth Hc Hm Hk [c [Hcin [Hct [Hcv Hcs]]]].
+  destruct (f_removable_debit fx) eqn:Hdb.
+  { apply (removable_false_in_db st shs n tx0 op c Hdb Hcb Hin Hcin Hct Hcv); rewrite Hcs; assumption. }
+  unfold removable. apply andb_false_iff. left.
+  rewrite Hfx_rm, Hdb. cbn [andb]. apply negb_false_iff. unfold spends_other. rewrite Hcb. cbn [negb andb].
   apply existsb_exists. exists op. split; [assumption|]. rewrite Hnt, Hnth, Hm, Hk.
   destruct (o_class o); try reflexivity. contradiction.
 Qed.
 
-Lemma round_keeps : forall cap n st w c1 c2 n2 f,
-  StInv U S st -> XRep p st c1 c2 f ->
-  wf_chain n -> incl n U -> n = c1 ++ n2 -> incl (c1 ++ c2) U ->
-  StInv U S (fst (remove_round fx cap n (find_tx (chain_txs U)) st w)) /\
-  XRep p (fst (remove_round fx cap n (find_tx (chain_txs U)) st w)) c1 c2 f.
+(* a coin of the represented chain that belongs to a selected wallet has its credit row in the store *)
+Lemma Rep_coin_credit : forall own keepw cs brs c1 c2 f k,
+  Rep p own keepw cs brs c1 c2 f -> In k (coins_l own (ptxs (c1 ++ c2))) ->
+  In (mk_credit p k (f (coin_op k))) cs.
 Proof.
-  intros cap n st w c1 c2 n2 f HS HR Hwfn HnU Hn HcU.
+  intros own keepw cs brs c1 c2 f k HR Hk.
+  assert (H : In (mk_credit p k (f (coin_op k))) (kept keepw cs)).
+  { rewrite (rp_credits _ _ _ _ _ _ _ _ HR). unfold mkE. apply in_map_iff. exists k. split; [reflexivity|assumption]. }
+  unfold kept in H. apply filter_In in H. tauto.
+Qed.
+
+(* the round keeps the invariants when the spender of a represented coin is kept: repaired
+   (f_removable_debit) because the store holds the coin's credit row, whatever the node's chain is;
+   before that repair only while the coin's block [c1] is on the node's chain *)
+Lemma round_keeps_gen : forall cap n lookup st w c1 c2 f,
+  (forall t tx0, lookup t = Some tx0 -> In tx0 (chain_txs U) /\ t_id tx0 = t) ->
+  f_removable_debit fx = true \/ (wf_chain n /\ exists n2, n = c1 ++ n2) ->
+  StInv U S st -> XRep p st c1 c2 f -> incl (c1 ++ c2) U ->
+  StInv U S (fst (remove_round fx cap n lookup st w)) /\
+  XRep p (fst (remove_round fx cap n lookup st w)) c1 c2 f.
+Proof.
+  intros cap n lookup st w c1 c2 f Hlookup Hnode HS HR HcU.
   unfold remove_round.
   destruct (status_of st w) as [[|k|]|] eqn:Hs; try (split; assumption).
   destruct (memN w (x_p1 st)) eqn:Hp1; [|split; assumption].
   set (shs := sh_of_wallet st w).
   set (cs := credits (x_w st)).
-  set (lookup := find_tx (chain_txs U)).
   destruct (match shs with [] => (cs, [], true) | _ => rm_credits shs cap cs 0 [] end) as [[keptl hot] fin] eqn:Hrm.
   set (brs' := repair fx st shs n lookup (x_brecs st) hot).
   assert (Hrw : is_ready st w = false). { unfold is_ready. rewrite Hs. reflexivity. }
@@ -356,7 +388,7 @@ Proof.
   assert (HR1 : Rep p (ready_own st) (is_ready st) keptl brs' c1 c2 f).
   { apply (Rep_brs p _ _ cs keptl (x_brecs st) brs' c1 c2 f Hkept); [| |exact HR].
     - intros k Hk Hl. apply repair_keeps; [exact Hl|]. intros tx0 Hlk.
-      unfold lookup in Hlk. apply find_tx_some in Hlk. destruct Hlk as [Htx0 Hid0].
+      apply Hlookup in Hlk. destruct Hlk as [Htx0 Hid0].
       destruct (coins_l_in_full _ _ _ Hk) as [x [o [Hx [Htx [_ [_ [Hnth [Ho [Hc _]]]]]]]]].
       destruct (in_ptxs _ _ Hx) as [b [Hb [Ht _]]].
       assert (tx0 = pt_tx x).
@@ -364,20 +396,27 @@ Proof.
       subst tx0. destruct (Hready_out o _ Ho) as [Hm Hk'].
       apply (removable_false_out st shs n (pt_tx x) o (nth_error_In _ _ Hnth) Hc Hm Hk').
     - intros k a i hs Hk Hf Hl. apply repair_keeps; [exact Hl|]. intros tx0 Hlk.
-      unfold lookup in Hlk. apply find_tx_some in Hlk. destruct Hlk as [Htx0 Hid0].
+      apply Hlookup in Hlk. destruct Hlk as [Htx0 Hid0].
       rewrite (rp_live _ _ _ _ _ _ _ _ HR k Hk) in Hf.
       apply spender_l_some_full in Hf. destruct Hf as [x [Hx [Hcb [Hop [Ha _]]]]].
       destruct (in_ptxs _ _ Hx) as [b [Hb [Ht _]]].
       assert (tx0 = pt_tx x).
       { apply U_txs; [assumption| |congruence]. apply in_chain_txs. exists b. split; [apply HcU|]; assumption. }
       subst tx0.
-      destruct (coins_l_in_full _ _ _ Hk) as [x' [o [Hx' [Htx' [_ [_ [Hnth [Ho [Hc _]]]]]]]]].
+      destruct (coins_l_in_full _ _ _ Hk) as [x' [o [Hx' [Htx' [_ [_ [Hnth [Ho [Hc [Hksh _]]]]]]]]]].
       destruct (in_ptxs _ _ Hx') as [b' [Hb' [Ht' _]]].
+      destruct (Hready_out o _ Ho) as [Hm0 Hk0].
+      assert (Hcred : In (mk_credit p k (f (coin_op k))) (credits (x_w st))).
+      { apply (Rep_coin_credit _ _ _ _ _ _ _ k HR). apply coins_l_prefix_in. exact Hk. }
+      destruct Hnode as [Hdb|[Hwfn [n2 Hn]]].
+      { apply (removable_false_in_db st shs n (pt_tx x) (coin_op k) (mk_credit p k (f (coin_op k))) Hdb Hcb Hop Hcred);
+          cbn [mk_credit c_tx c_vout c_sh coin_op fst snd]; try reflexivity; rewrite Hksh; assumption. }
       assert (Hnt : node_tx n (fst (coin_op k)) = Some (pt_tx x')).
       { unfold coin_op. cbn [fst]. rewrite Htx'. apply node_tx_found; [assumption|].
         apply in_chain_txs. exists b'. split; [|assumption]. rewrite Hn. apply in_or_app. left. assumption. }
       destruct (Hready_out o _ Ho) as [Hm Hk'].
-      apply (removable_false_in st shs n (pt_tx x) (coin_op k) (pt_tx x') o Hcb Hop Hnt Hnth Hc Hm Hk'). }
+      apply (removable_false_in st shs n (pt_tx x) (coin_op k) (pt_tx x') o Hcb Hop Hnt Hnth Hc Hm Hk').
+      exists (mk_credit p k (f (coin_op k))). split; [exact Hcred|cbn [mk_credit c_tx c_vout c_sh coin_op fst snd]; tauto]. }
   destruct fin; cbn [fst].
   - (* the last round: status, passphrase and keystore go *)
     set (st' := {| x_w := {| credits := keptl; synced := synced (x_w st) |};
@@ -439,6 +478,18 @@ Proof.
       * exact (si_p1 _ _ _ HS).
       * exact (si_issued _ _ _ HS).
     + split; [exact Hsy|]. exact HR1.
+Qed.
+
+Lemma round_keeps : forall cap n st w c1 c2 n2 f,
+  StInv U S st -> XRep p st c1 c2 f ->
+  wf_chain n -> incl n U -> n = c1 ++ n2 -> incl (c1 ++ c2) U ->
+  StInv U S (fst (remove_round fx cap n (find_tx (chain_txs U)) st w)) /\
+  XRep p (fst (remove_round fx cap n (find_tx (chain_txs U)) st w)) c1 c2 f.
+Proof.
+  intros cap n st w c1 c2 n2 f HS HR Hwfn HnU Hn HcU.
+  apply round_keeps_gen; try assumption.
+  - intros t tx0 H. apply find_tx_some in H. exact H.
+  - right. split; [assumption|]. exists n2. assumption.
 Qed.
 
 End Round.
